@@ -1,8 +1,11 @@
 (* C12 -- compiled control pulses are exactly the scheduled instruction waveforms.
 
    Model: QV.Model.Concat (GateCompiler.compile / _schedule / _process_gate_pulse /
-   _process_idling_tlist / _concatenate_pulses in exact rationals).  `fx = true` is the code with
-   fixes/C12-first-pulse-flag.diff applied, `fx = false` the unchanged code.
+   _process_idling_tlist / _concatenate_pulses in exact rationals).
+     fx = true : code with fixes/C12-first-pulse-flag.diff (explicit first-pulse flag)
+     gx = true : code with fixes/C12-idle-gap-time-resolution.diff (idle-gap test against
+                 time_resolution = 1e-14 * latest end time instead of 1e-6 * step of the next pulse)
+   false = the respective unchanged test.  The theorems are about (true, true).
 
    Full statement aimed at (property text): for every compiler, gate list and scheduling mode every
    returned channel has a grid starting at 0 and strictly increasing, a coefficient array that fits
@@ -10,34 +13,45 @@
    and is zero elsewhere, whatever the ratios of the durations.
 
    What is proved, for ALL instruction lists / channels / durations (no size bound):
-     grid_starts_zero, coeff_length_fits      unconditionally for the repaired code;
+     grid_starts_zero, coeff_length_fits      unconditionally;
      grid_strictly_increasing                 for well-formed, time-ordered, non-overlapping channels
                                               (chain_ord), any duration ratios;
      compiled_is_waveform, window_waveform,
-     zero_elsewhere                           for discrete channels, additionally under the guard gaps_ok
-                                              (an idle gap is 0 or > 1e-6 * step of the next instruction);
-                                              gap_guard_needed_refuted shows the guard is necessary
-                                              (known finding idle-gap-below-tolerance);
-     continuous_samples_partial               continuous channels: PARTIAL -- lengths, every sample k >= 1
-                                              of every instruction is present, every other grid point
-                                              carries 0; nothing about the spline between samples;
-     unfixed_*_refuted                        the unchanged code violates grid / length clauses
-                                              (durations 1e-9 then 1e4);
-     fix_is_conservative                      unchanged = repaired code on inputs with moderate ratios. *)
-From Coq Require Import List QArith.
+     zero_elsewhere                           for discrete channels.  The former guard "gap = 0 or
+                                              gap > 1e-6 * step of the next instruction" is gone; what is
+                                              left is the float-resolution guard gaps_ok (gap_tol true res):
+                                              an idle gap is 0 or exceeds 1e-14 * (latest end time of the
+                                              schedule), about 45 ulp of a double at that time.  In exact
+                                              arithmetic it cannot be dropped (resolution_guard_needed_refuted);
+     instruction_block, grid_concatenation    both modes: the returned arrays are [0] / earlier blocks / idle grid /
+                                              the instruction's own block (same offset in both arrays) / later
+                                              blocks; the idle grid is exactly _process_idling_tlist of the
+                                              previous window end;
+     window_grid, continuous_aligned,
+     continuous_points, continuous_idle_grid  continuous (spline) channels: the grid points inside a window
+                                              (start, end] are exactly the instruction's samples k >= 1, each
+                                              at ONE index of tlist and coeff; every other grid point carries 0
+                                              and lies in no window; the idle grid spelled out (2 x 10-point
+                                              linspace / arange / nothing).  NOT covered: the values of the
+                                              interpolating spline between grid points;
+     unfixed_*_refuted, step_tolerance_gap_refuted
+                                              the unchanged tests violate the clauses;
+     fix_is_conservative, idle_fix_is_conservative
+                                              each repair leaves the arrays unchanged on ordinary inputs. *)
+From Coq Require Import List QArith Qabs.
 From QV Require Import Model.Concat Proofs.ConcatGrid Proofs.ConcatWave Proofs.ConcatAll
-     Proofs.ConcatChannels Proofs.ConcatRefute Proofs.ConcatTop.
+     Proofs.ConcatChannels Proofs.ConcatRefute Proofs.ConcatTop Proofs.ConcatBlocks.
 Import ListNotations.
 Open Scope Q_scope.
 
 (* compile = time ordering + per-name channel lists + _concatenate_pulses; the list of a pulse name
    is exactly the instructions that use the name, in time order *)
-Theorem compile_structure : forall fx sched il out,
-  il <> [] -> compile fx sched il = Some out ->
+Theorem compile_structure : forall fx gx sched il out,
+  il <> [] -> compile fx gx sched il = Some out ->
   exists sil chs outs,
     scheduled sched il = Some sil /\ build_channels sil = Some chs /\
     NoDup (map fst chs) /\ (forall n l, In (n, l) chs -> l = pulses_of n sil) /\
-    concatenate_pulses fx (map snd chs) = Some outs /\ out = combine (map fst chs) outs.
+    concatenate_pulses fx gx (map snd chs) = Some outs /\ out = combine (map fst chs) outs.
 Proof. exact ConcatTop.compile_structure. Qed.
 Print Assumptions compile_structure.
 
@@ -50,13 +64,13 @@ Print Assumptions time_order_sorted.
 
 (* clause: the time grid of every returned channel starts at zero (any durations) *)
 Theorem grid_starts_zero : forall sched il out n ts cs,
-  compile true sched il = Some out -> In (n, (ts, cs)) out -> exists r, ts = 0 :: r.
+  compile true true sched il = Some out -> In (n, (ts, cs)) out -> exists r, ts = 0 :: r.
 Proof. exact ConcatTop.compile_grid_starts_zero. Qed.
 Print Assumptions grid_starts_zero.
 
 (* clause: the coefficient array fits the grid for the pulse kind (any durations) *)
 Theorem coeff_length_fits : forall chs outs k i rest ts cs,
-  concatenate_pulses true chs = Some outs ->
+  concatenate_pulses true true chs = Some outs ->
   nth_error chs k = Some (i :: rest) -> nth_error outs k = Some (ts, cs) ->
   (is_discrete (p_wave i) /\ length ts = S (length cs)) \/
   (is_continuous (p_wave i) /\ ~ is_discrete (p_wave i) /\ length ts = length cs).
@@ -66,7 +80,7 @@ Print Assumptions coeff_length_fits.
 (* clause: every grid increases strictly -- whatever the relative magnitudes of the durations *)
 Theorem grid_strictly_increasing : forall chs outs,
   Forall (chain_ord 0) chs ->
-  concatenate_pulses true chs = Some outs ->
+  concatenate_pulses true true chs = Some outs ->
   Forall (fun o => strictly_increasing (fst o)) outs.
 Proof. exact ConcatAll.all_increasing. Qed.
 Print Assumptions grid_strictly_increasing.
@@ -74,34 +88,34 @@ Print Assumptions grid_strictly_increasing.
 (* clauses window + zero in one: as a function of time the compiled discrete channel IS the
    scheduled waveform *)
 Theorem compiled_is_waveform : forall chs outs k l ts cs,
-  concatenate_pulses true chs = Some outs ->
+  concatenate_pulses true true chs = Some outs ->
   nth_error chs k = Some l -> nth_error outs k = Some (ts, cs) ->
-  chain_ord 0 l -> gaps_ok 0 l -> Forall (fun i => is_discrete (p_wave i)) l ->
+  chain_ord 0 l -> gaps_ok (gap_tol true (res_of chs)) 0 l -> Forall (fun i => is_discrete (p_wave i)) l ->
   forall t, eval_step ts cs t = spec_eval l t.
 Proof. exact ConcatAll.all_waveform. Qed.
 Print Assumptions compiled_is_waveform.
 
 Theorem window_waveform : forall chs outs k l ts cs,
-  concatenate_pulses true chs = Some outs ->
+  concatenate_pulses true true chs = Some outs ->
   nth_error chs k = Some l -> nth_error outs k = Some (ts, cs) ->
-  chain_ord 0 l -> gaps_ok 0 l -> Forall (fun i => is_discrete (p_wave i)) l ->
+  chain_ord 0 l -> gaps_ok (gap_tol true (res_of chs)) 0 l -> Forall (fun i => is_discrete (p_wave i)) l ->
   forall i t, In i l -> p_start i <= t -> t < p_end i ->
   eval_step ts cs t = eval_step (w_ts (p_wave i)) (w_cs (p_wave i)) (t - p_start i).
 Proof. exact ConcatTop.window_waveform. Qed.
 Print Assumptions window_waveform.
 
 Theorem zero_elsewhere : forall chs outs k l ts cs,
-  concatenate_pulses true chs = Some outs ->
+  concatenate_pulses true true chs = Some outs ->
   nth_error chs k = Some l -> nth_error outs k = Some (ts, cs) ->
-  chain_ord 0 l -> gaps_ok 0 l -> Forall (fun i => is_discrete (p_wave i)) l ->
+  chain_ord 0 l -> gaps_ok (gap_tol true (res_of chs)) 0 l -> Forall (fun i => is_discrete (p_wave i)) l ->
   forall t, (forall i, In i l -> ~ (p_start i <= t /\ t < p_end i)) -> eval_step ts cs t = 0.
 Proof. exact ConcatTop.zero_elsewhere. Qed.
 Print Assumptions zero_elsewhere.
 
-(* continuous channels -- PARTIAL (missing: behaviour of the interpolating spline between grid points,
-   and that zero samples lie outside the windows beyond what grid monotonicity gives) *)
+(* continuous channels, membership form (superseded by continuous_points / continuous_aligned below; kept as the
+   order-free statement).  PARTIAL only in that the interpolating spline between grid points is not modelled *)
 Theorem continuous_samples_partial : forall chs outs k l ts cs,
-  concatenate_pulses true chs = Some outs ->
+  concatenate_pulses true true chs = Some outs ->
   nth_error chs k = Some l -> nth_error outs k = Some (ts, cs) ->
   Forall wf_cont l ->
   length ts = length cs /\
@@ -110,50 +124,164 @@ Theorem continuous_samples_partial : forall chs outs k l ts cs,
 Proof. exact ConcatAll.all_samples. Qed.
 Print Assumptions continuous_samples_partial.
 
+(* ---- bookkeeping of the concatenation (both pulse modes; what a spline channel is made of) ---- *)
+
+(* the block of instruction i: its times and coefficients stand contiguously in the two arrays, everything
+   before is at or before its start, everything after is beyond its end *)
+Theorem instruction_block : forall chs outs k l ts cs,
+  Forall (chain_ord 0) chs ->
+  concatenate_pulses true true chs = Some outs ->
+  nth_error chs k = Some l -> nth_error outs k = Some (ts, cs) ->
+  forall i, In i l ->
+  exists A B cA cB,
+    ts = A ++ exec_times i ++ B /\ cs = cA ++ exec_coeffs i ++ cB /\
+    match l with
+    | j :: _ => (is_discrete (p_wave j) /\ length A = S (length cA)) \/
+                (is_continuous (p_wave j) /\ ~ is_discrete (p_wave j) /\ length A = length cA)
+    | [] => False
+    end /\
+    (forall x, In x A -> x <= p_start i) /\ (forall x, In x B -> p_end i < x).
+Proof. exact ConcatBlocks.all_split. Qed.
+Print Assumptions instruction_block.
+
+(* what stands immediately in front of the block: the idle grid computed from the end of the previous window *)
+Theorem grid_concatenation : forall chs outs k l1 i l2 ts cs,
+  Forall (chain_ord 0) chs ->
+  concatenate_pulses true true chs = Some outs ->
+  nth_error chs k = Some (l1 ++ i :: l2) -> nth_error outs k = Some (ts, cs) ->
+  exists A0 idl B prev,
+    prev == prev_end 0 l1 /\
+    idle_before (gap_tol true (res_of chs)) i prev = Some idl /\
+    ts = 0 :: A0 ++ idl ++ exec_times i ++ B /\
+    exists cA0 cB, cs = cA0 ++ zeros idl ++ exec_coeffs i ++ cB /\
+                   (length (0 :: A0) = S (length cA0) \/ length (0 :: A0) = length cA0).
+Proof. exact ConcatBlocks.grid_concatenation. Qed.
+Print Assumptions grid_concatenation.
+
+Theorem continuous_idle_grid : forall gtl i prev,
+  mode_of i = Continuous ->
+  idle_before gtl i prev =
+  let s := p_start i in let h := step_of (p_wave i) in
+  if Qlt_b (gtl h) (Qabs (s - prev)) then
+    if Qlt_b (3 * h) (s - prev)
+    then Some (linspace10 (prev + h / 5) (prev + h) ++ linspace10 (s - h) s)
+    else if Qeq_bool h 0 then None else Some (arange (prev + h) s h)
+  else Some [].
+Proof. exact ConcatBlocks.idle_before_continuous. Qed.
+Print Assumptions continuous_idle_grid.
+
+(* no foreign grid point inside a window *)
+Theorem window_grid : forall chs outs k l ts cs,
+  Forall (chain_ord 0) chs ->
+  concatenate_pulses true true chs = Some outs ->
+  nth_error chs k = Some l -> nth_error outs k = Some (ts, cs) ->
+  forall i t, In i l -> In t ts -> p_start i < t -> t <= p_end i -> In t (exec_times i).
+Proof. exact ConcatBlocks.window_grid. Qed.
+Print Assumptions window_grid.
+
+(* continuous channel: sample n+1 of an instruction sits at one and the same index of tlist and coeff *)
+Theorem continuous_aligned : forall chs outs k l ts cs,
+  Forall (chain_ord 0) chs ->
+  concatenate_pulses true true chs = Some outs ->
+  nth_error chs k = Some l -> nth_error outs k = Some (ts, cs) ->
+  Forall wf_cont l ->
+  forall i, In i l ->
+  exists off,
+    forall n, (n < length (exec_times i))%nat ->
+      nth_error ts (off + n) = nth_error (exec_times i) n /\
+      nth_error cs (off + n) = nth_error (tl (w_cs (p_wave i))) n.
+Proof. exact ConcatBlocks.continuous_aligned. Qed.
+Print Assumptions continuous_aligned.
+
+(* continuous channel, every grid point: a sample of the instruction whose window contains it, or a zero
+   outside all windows *)
+Theorem continuous_points : forall chs outs k l ts cs,
+  Forall (chain_ord 0) chs ->
+  concatenate_pulses true true chs = Some outs ->
+  nth_error chs k = Some l -> nth_error outs k = Some (ts, cs) ->
+  Forall wf_cont l ->
+  forall p t c, nth_error ts p = Some t -> nth_error cs p = Some c ->
+  (exists i n, In i l /\ p_start i < t /\ t <= p_end i /\
+               nth_error (exec_times i) n = Some t /\ nth_error (tl (w_cs (p_wave i))) n = Some c) \/
+  (c = 0 /\ forall i, In i l -> ~ (p_start i < t /\ t <= p_end i)).
+Proof. exact ConcatBlocks.continuous_points. Qed.
+Print Assumptions continuous_points.
+
 (* the unchanged code: refuted *)
 Theorem unfixed_grid_refuted :
-  exists chs outs, Forall (chain_ord 0) chs /\ Forall (gaps_ok 0) chs /\
-                   concatenate_pulses false chs = Some outs /\
+  exists chs outs, Forall (chain_ord 0) chs /\ Forall (gaps_ok (gap_tol false 0) 0) chs /\
+                   concatenate_pulses false false chs = Some outs /\
                    ~ Forall (fun o => strictly_increasing (fst o)) outs.
 Proof. exact ConcatRefute.unfixed_grid_refuted. Qed.
 Print Assumptions unfixed_grid_refuted.
 
 Theorem unfixed_length_refuted :
   exists chs outs i rest ts cs,
-    Forall (chain_ord 0) chs /\ Forall (gaps_ok 0) chs /\
-    concatenate_pulses false chs = Some outs /\
+    Forall (chain_ord 0) chs /\ Forall (gaps_ok (gap_tol false 0) 0) chs /\
+    concatenate_pulses false false chs = Some outs /\
     nth_error chs 0 = Some (i :: rest) /\ nth_error outs 0 = Some (ts, cs) /\
     is_discrete (p_wave i) /\ length ts <> S (length cs).
 Proof. exact ConcatRefute.unfixed_length_refuted. Qed.
 Print Assumptions unfixed_length_refuted.
 
-(* the guard gaps_ok cannot be dropped (repaired code): known finding idle-gap-below-tolerance *)
-Theorem gap_guard_needed_refuted :
+(* the step-size tolerance of the unchanged idle-gap test swallows a real gap (gap 1 between two pulses of
+   length 2^24): the former known finding idle-gap-below-tolerance, now repaired *)
+Theorem step_tolerance_gap_refuted :
   exists chs outs l ts cs t,
-    concatenate_pulses true chs = Some outs /\
+    concatenate_pulses true false chs = Some outs /\
     nth_error chs 0 = Some l /\ nth_error outs 0 = Some (ts, cs) /\
     chain_ord 0 l /\ Forall (fun i => is_discrete (p_wave i)) l /\
     (forall i, In i l -> ~ (p_start i <= t /\ t < p_end i)) /\
     ~ eval_step ts cs t == 0.
-Proof. exact ConcatRefute.gap_guard_needed_refuted. Qed.
-Print Assumptions gap_guard_needed_refuted.
+Proof. exact ConcatRefute.step_tolerance_gap_refuted. Qed.
+Print Assumptions step_tolerance_gap_refuted.
+
+(* the repaired test keeps a float-resolution threshold: a gap of 1e-15 in a schedule of length 2 is swallowed *)
+Theorem resolution_guard_needed_refuted :
+  exists chs outs l ts cs t,
+    concatenate_pulses true true chs = Some outs /\
+    nth_error chs 0 = Some l /\ nth_error outs 0 = Some (ts, cs) /\
+    chain_ord 0 l /\ Forall (fun i => is_discrete (p_wave i)) l /\
+    (forall i, In i l -> ~ (p_start i <= t /\ t < p_end i)) /\
+    ~ eval_step ts cs t == 0.
+Proof. exact ConcatRefute.resolution_guard_needed_refuted. Qed.
+Print Assumptions resolution_guard_needed_refuted.
 
 (* the repair changes nothing when no instruction is > 1e6 times longer than the time elapsed before it *)
-Theorem fix_is_conservative : forall chs,
-  Forall moderate chs -> concatenate_pulses false chs = concatenate_pulses true chs.
+Theorem fix_is_conservative : forall gx chs,
+  Forall moderate chs -> concatenate_pulses false gx chs = concatenate_pulses true gx chs.
 Proof. exact ConcatRefute.fix_is_conservative. Qed.
 Print Assumptions fix_is_conservative.
+
+(* the idle-gap repair changes nothing when every gap is absent or above both thresholds *)
+Theorem idle_fix_is_conservative : forall fx chs r,
+  resolution chs = Some r -> 0 <= r ->
+  Forall (chain_ord 0) chs ->
+  Forall (gaps_ok (gap_tol false r) 0) chs -> Forall (gaps_ok (gap_tol true r) 0) chs ->
+  concatenate_pulses fx false chs = concatenate_pulses fx true chs.
+Proof. exact ConcatRefute.idle_fix_is_conservative. Qed.
+Print Assumptions idle_fix_is_conservative.
 
 (* non-vacuity: a two-channel input (rectangular + sampled discrete with an idle gap; two adjoining
    continuous pulses, padded with the leaked continuous mode) satisfies all hypotheses above *)
 Example hypotheses_inhabited :
-  Forall (chain_ord 0) ex_chs /\ Forall (gaps_ok 0) ex_chs /\
+  Forall (chain_ord 0) ex_chs /\ Forall (gaps_ok (gap_tol true (res_of ex_chs)) 0) ex_chs /\
   Forall (fun i => is_discrete (p_wave i)) ex_chA /\ Forall wf_cont ex_chB /\
-  exists oA oB, concatenate_pulses true ex_chs = Some [oA; oB] /\
+  exists oA oB, concatenate_pulses true true ex_chs = Some [oA; oB] /\
                 eval_step (fst oA) (snd oA) (7 # 2) = 5 /\ eval_step (fst oA) (snd oA) 2 = 0 /\
                 length (fst oA) = 5%nat /\ length (fst oB) = 25%nat.
 Proof. exact (conj ex_chain (conj ex_gaps (conj ex_discrete (conj ex_continuous ex_compiles)))). Qed.
 Print Assumptions hypotheses_inhabited.
+
+Example blocks_inhabited :
+  exists oA oB i1 i2,
+    concatenate_pulses true true ex_chs = Some [oA; oB] /\ ex_chB = [i1; i2] /\
+    exec_times i2 = [(1 # 2) + 2; 1 + 2] /\
+    nth_error (fst oB) 3 = nth_error (exec_times i2) 0 /\ nth_error (snd oB) 3 = Some 6 /\
+    nth_error (fst oB) 4 = nth_error (exec_times i2) 1 /\ nth_error (snd oB) 4 = Some 0 /\
+    idle_before (gap_tol true (res_of ex_chs)) i2 (p_end i1) = Some [].
+Proof. exact ConcatBlocks.ex_blocks. Qed.
+Print Assumptions blocks_inhabited.
 
 Example moderate_inhabited : Forall moderate ConcatRefute.wit_mod.
 Proof. exact ConcatRefute.wit_mod_ok. Qed.
